@@ -1,5 +1,6 @@
 import CacheVerif.Generated.Wrappers
 import CacheVerif.Model.Table
+import CacheVerif.Model.ProtoApi
 import CacheVerif.Proofs.ProtoLin
 /-!
 # The writing methods of `Map` / `MapOf`, as printed from the working tree, are the calls of `doCompute` the models make
@@ -110,4 +111,23 @@ theorem delete_spec (w : Wrapper) (hw : w = Gen.Deep.Map_Delete ∨ w = Gen.Deep
      cases hg : m.get k <;> simp [hg, AMap.get_erase])
 
 end spec
+/-- **the operations the trace acceptor of M4a starts** (`Model.Proto.api`, hand-written) **are the calls of `doCompute` the
+methods printed from the working tree make** -/
+theorem api_is_wrappers (k : K) (x : V) (g : Option V → V × Bool) :
+    Model.Proto.api "store" k x g = some (.dc k (Gen.Deep.Map_Store.fnOf x g) Gen.Deep.Map_Store.lie Gen.Deep.Map_Store.co) ∧
+    Model.Proto.api "loadorstore" k x g = some (.dc k (Gen.Deep.Map_LoadOrStore.fnOf x g) Gen.Deep.Map_LoadOrStore.lie Gen.Deep.Map_LoadOrStore.co) ∧
+    Model.Proto.api "loadandstore" k x g = some (.dc k (Gen.Deep.Map_LoadAndStore.fnOf x g) Gen.Deep.Map_LoadAndStore.lie Gen.Deep.Map_LoadAndStore.co) ∧
+    Model.Proto.api "loadorcompute" k x g = some (.dc k (Gen.Deep.Map_LoadOrCompute.fnOf x g) Gen.Deep.Map_LoadOrCompute.lie Gen.Deep.Map_LoadOrCompute.co) ∧
+    Model.Proto.api "compute" k x g = some (.dc k (Gen.Deep.Map_Compute.fnOf x g) Gen.Deep.Map_Compute.lie Gen.Deep.Map_Compute.co) ∧
+    Model.Proto.api "loadanddelete" k x g = some (.dc k (Gen.Deep.Map_LoadAndDelete.fnOf x g) Gen.Deep.Map_LoadAndDelete.lie Gen.Deep.Map_LoadAndDelete.co) ∧
+    Model.Proto.api "delete" k x g = some (.dc k (Gen.Deep.Map_Delete.fnOf x g) Gen.Deep.Map_Delete.lie Gen.Deep.Map_Delete.co) :=
+  ⟨rfl, rfl, rfl, rfl, rfl, rfl, rfl⟩
+
+/-- the wrappers of `map.go` and `mapof.go` pass the same things to `doCompute` (the trace acceptor of M4a uses one table
+for both files) -/
+theorem twins : Gen.Deep.Map_Store = Gen.Deep.MapOf_Store ∧ Gen.Deep.Map_LoadOrStore = Gen.Deep.MapOf_LoadOrStore ∧
+    Gen.Deep.Map_LoadAndStore = Gen.Deep.MapOf_LoadAndStore ∧ Gen.Deep.Map_LoadOrCompute = Gen.Deep.MapOf_LoadOrCompute ∧
+    Gen.Deep.Map_Compute = Gen.Deep.MapOf_Compute ∧ Gen.Deep.Map_LoadAndDelete = Gen.Deep.MapOf_LoadAndDelete ∧
+    Gen.Deep.Map_Delete = Gen.Deep.MapOf_Delete := by decide
+
 end Proofs.Wrappers
